@@ -496,6 +496,7 @@ class Ctx:
         self.abstract_crossed = []        # names of abstract (inexact) contracts crossed
         self.events = []                  # ghost events (warnings, stores, ...)
         self.tracked = {}                 # label -> z3 term, for model printing / replay
+        self.univ = []                    # universally quantified facts: callables x -> formula
 
     def fresh_name(self, base):
         self.counter += 1
@@ -580,6 +581,13 @@ class Ctx:
 
     def track(self, label, term):
         self.tracked[label] = term
+
+    def instantiate(self, *terms):
+        """assume every recorded universally quantified fact (a proved postcondition of the
+        form `for every reading x: ...`) at the given terms"""
+        for fact in self.univ:
+            for t in terms:
+                self.assume(fact(t))
 
     def _model(self, m):
         if m is None:
